@@ -34,28 +34,29 @@ Theorem no_cross_block_match : forall keep scan_one blocks, selects keep -> with
 Proof. exact BlocksProofs.no_cross_block_match. Qed.
 Print Assumptions no_cross_block_match.
 
-(* whole-file notions in block mode: "filesize, module fields and the
-   per-thread module caches are as in a fresh block scanner whatever happened
-   before" is false on the current tree (state model of C04, generated) ... *)
-Theorem whole_file_undefined_refuted : ~ whole_file_undefined_stmt.
-Proof. exact StateProofs.whole_file_undefined_refuted. Qed.
-Print Assumptions whole_file_undefined_refuted.
+(* whole-file notions in block mode: whatever the scanner (converted from a
+   used Scanner or not) and the other scanners of the thread did before, the
+   filesize global, the module fields of root_struct and the scan-scoped
+   per-thread caches (hash, math) are as in a fresh block scanner when a new
+   sequence of blocks starts (state model of C04, generated from the source) *)
+Theorem whole_file_undefined : forall R h i,
+  forallb wf_op h = true -> (spec_persist h CKind =? 0) = false ->
+  (run R h fresh (CF blk_needs_reset) =? 0) = false ->
+  forall c, whole_file_cell c = true -> probe_block R i (run R h fresh) c = fresh c.
+Proof. exact StateProofs.whole_file_undefined. Qed.
+Print Assumptions whole_file_undefined.
 
-(* ... and true for a scanner created as a block scanner on a thread that no
-   contiguous scan touched: nothing in block mode writes these cells *)
-Theorem whole_file_undefined_born_blocks : forall R h i,
-  forallb block_only h = true ->
-  forall c, block_leak c = true -> c <> CF blk_snippets ->
-    probe_block R i (run R (OIntoBlocks :: h) fresh) c = fresh c.
-Proof. exact StateProofs.whole_file_undefined_born_blocks. Qed.
-Print Assumptions whole_file_undefined_born_blocks.
+(* ... but not the per-thread caches that are not scan-scoped (recorded finding) *)
+Theorem whole_file_undefined_all_caches_refuted : ~ whole_file_undefined_all_caches_stmt.
+Proof. exact StateProofs.whole_file_undefined_all_caches_refuted. Qed.
+Print Assumptions whole_file_undefined_all_caches_refuted.
 
-(* pattern state in block mode does not depend on the history (every visible
-   cell except the leaking ones) *)
+(* pattern state in block mode does not depend on the history *)
 Theorem block_pattern_state_history_independent : forall R h i,
-  forallb wf_op h = true -> hist_ok fresh h = true ->
+  forallb wf_op h = true ->
+  (spec_persist h CKind =? 0) = false ->
   (run R h fresh (CF blk_needs_reset) =? 0) = false ->
   forall c, visible R true c = true -> block_leak c = false ->
     probe_block R i (run R h fresh) c = probe_block R i (spec_persist h) c.
-Proof. exact StateProofs.history_independence_block_patterns. Qed.
+Proof. exact StateProofs.history_independence_block. Qed.
 Print Assumptions block_pattern_state_history_independent.
